@@ -94,6 +94,10 @@ Positive == LET a == AlgoRate12(v, 1)
 LinearInJ2 == /\ AlgoRate12(v, v.jm) = [AlgoRate12(v, 1) EXCEPT !.j2 = v.jm * @]
               /\ AlgoRate21(v, v.jm) = [AlgoRate21(v, 1) EXCEPT !.j2 = v.jm * @]
 \* zero field or neutral excitation: the field term vanishes
+\* the exponent vanishes exactly where the driving force equals the reorganisation energy and is
+\* negative elsewhere (normal and inverted region): k <= k0
+ExponentNonPositive == /\ SpecRate12(v, 1).xn <= 0 /\ SpecRate21(v, 1).xn <= 0
+                       /\ (SpecRate12(v, 1).xn = 0 <=> SpecLnRatio(v) = SpecLam12(v))
 NeutralIgnoresField == Charge(v.c) = 0 => SpecLnRatio(v) = SiteE1(v) - SiteE2(v)
 \* reversing the field direction or the carrier sign reverses the field term
 FieldAntisymmetric ==
@@ -105,5 +109,10 @@ Vector == Emit =>
                  ux2 |-> v.ux2, n1 |-> v.n1, x1 |-> v.x1, n2 |-> v.n2, x2 |-> v.x2, lo |-> v.lo,
                  R |-> v.R, F |-> v.F, jm |-> v.jm, tk |-> v.tk,
                  eq |-> SpecEqualReorg(v), lnratio |-> SpecLnRatio(v),
-                 fr |-> Dot(v.F, v.R), lin |-> v.jm]))
+                 fr |-> Dot(v.F, v.R), lin |-> v.jm,
+                 \* each direction separately: ln(k/k0) = xn/xd where k0 is the rate of the same
+                 \* pair at vanishing exponent (driving force = reorganisation energy l12 / l21)
+                 l12 |-> SpecLam12(v), l21 |-> SpecLam21(v),
+                 x12n |-> SpecRate12(v, 1).xn, x12d |-> SpecRate12(v, 1).xd,
+                 x21n |-> SpecRate21(v, 1).xn, x21d |-> SpecRate21(v, 1).xd]))
 =============================================================================
